@@ -50,5 +50,7 @@ def transcQ : Transc Rat where
   atan := lift1 Float.atan
   rpow := fun x y => floatToRat (Float.pow (ratToFloat x) (ratToFloat y))
   pi := floatToRat 3.141592653589793
+  sin := lift1 Float.sin
+  cos := lift1 Float.cos
 
 end Synphot.Driver
